@@ -701,6 +701,30 @@ func runC08(c *Ctx) {
 }
 
 var plyHeaderVariants = []string{
+	// foreign-tool shapes: unknown elements before / after vertex, list property inside vertex, tabs and runs of blanks,
+	// upper-case keywords, obj_info between properties, blank lines, CR-only noise, count forms
+	"ply\nformat binary_little_endian 1.0\nelement material 0\nproperty uchar r\nelement vertex 1\nproperty float x\nelement edge 0\nproperty int v1\nend_header\n\x00\x00\x80\x3f",
+	"ply\nformat ascii 1.0\nelement vertex 1\nproperty float x\nproperty list uchar int neighbours\nend_header\n1 0\n", // list property in vertex
+	"ply\nformat   ascii\t1.0\nelement\tvertex   1\nproperty\t float \t x\nend_header\n7\n",
+	"ply\nFORMAT ascii 1.0\nelement vertex 0\nend_header\n",
+	"ply\nformat ASCII 1.0\nelement vertex 0\nend_header\n",
+	"ply\nformat ascii 1.0\nELEMENT vertex 1\nproperty float x\nend_header\n1\n",
+	"ply\nformat ascii 1.0\nelement vertex 1\nPROPERTY float x\nend_header\n1\n",
+	"ply\nformat ascii 1.0\nelement vertex 1\nproperty float x\nobj_info between\nproperty float y\n\n\nend_header\n1 2\n",
+	"ply\nformat ascii 1.0\nelement vertex +1\nproperty float x\nend_header\n1\n",
+	"ply\nformat ascii 1.0\nelement vertex 01\nproperty float x\nend_header\n1\n",
+	"ply\nformat ascii 1.0\nelement vertex -1\nend_header\n",
+	"ply\nformat ascii 1.0\nelement vertex 1.0\nend_header\n",
+	"ply\nformat ascii 1.0\nelement vertex 99999999999999999999\nend_header\n",
+	"ply\nformat ascii 1.0\nelement vertex 0\nEND_HEADER\nend_header\n",
+	"ply\nformat ascii 1.0\nelement vertex 0\n end_header\nend_header\n",
+	"ply\nformat ascii 1.0\nelement vertex 0\nend_header",  // no LF after end_header
+	"ply\nformat ascii 1.0\nelement vertex 0\n",            // no end_header at all
+	"ply\rformat ascii 1.0\relement vertex 0\rend_header\r", // CR only: one long line
+	"\nply\nformat ascii 1.0\nend_header\n",
+	"ply\ncomment before format\nformat ascii 1.0\nend_header\n",
+	"ply\nformat ascii 1.0\ncommentary x\ncomment\ncomment\tTabbed  text \nelement vertex 0\nend_header\n",
+	"ply\nformat ascii 1.0\nelement vertex 1\nproperty  Float32  X\nproperty\tUINT8\tq\nend_header\n1 2\n",
 	"ply\nformat ascii 1.0\nelement vertex 1\nproperty float x\nend_header\n1\n",
 	"plY\nformat ascii 1.0\nend_header\n",
 	"ply \nformat ascii 1.0\nend_header\n",
